@@ -20,9 +20,11 @@ TRUSTED = [
     "translators harness/translate/codata.py (Python ast / fixed-width text / JSON readers, fail-closed; values stay source strings, Decimal parsing is done in Coq)",
     "hand-written model coq/Model/Constants.v of PhysicalConstantsContext.__init__/get and coq/Common/DecC02.v of Decimal(str), "
     "Decimal.__mul__, __truediv__, _fix at prec=28 ROUND_HALF_EVEN (transcribed from Lib/_pydecimal.py), tied by exact differential execution",
-    "CPython decimal (libmpdec), str.lower/str.translate on ASCII, collections.OrderedDict, float(Decimal): modelled, not verified; "
-    "float(Decimal) is checked on every value against the executable nearest-binary64 specification Model/Constants.v nearest64_ok "
-    "and against an integer-only nearest-double computation in this harness",
+    "CPython decimal (libmpdec), str.lower/str.translate on ASCII, collections.OrderedDict, float(Decimal): modelled, not verified. "
+    "PROVED about the model (not trusted): dec_fix/dec_mul/dec_div are correct roundings to 28 digits half-even for all operands; the "
+    "model's float nearest64(value) satisfies nearest64_ok for every table entry and nearest64_ok means 'no 53-bit number is closer, ties to "
+    "even'. float(Decimal) of the implementation is compared bit for bit with nearest64 of the model on every value (and against an "
+    "integer-only nearest-double computation in this harness)",
     "pydantic.v1 Datum construction (stores label/units/data/comment/doi unchanged) — observed through the correspondence",
     "non-ASCII names are outside the model (str.lower is modelled on ASCII only); NaN/Infinity/negative zero and Emax/Emin clamping of Decimal are not modelled",
 ]
@@ -586,12 +588,15 @@ LEVEL_TEXT = (
     "under the new name and is within 1e-4 of its 2014 value), C02_legacy_names_retrievable (every 2014 key, any case, is retrievable in 2018), "
     "C02_legacy_spelling (all 26 legacy entries carry NIST's 2014 spelling as label and attribute; repaired by fix 3f682e0), C02_legacy_tau_attribute. Tied to the code by the translators and by exhaustive, "
     "exact differential execution over every key x 4 spellings x 4 access routes x 3 context objects; the float form is checked on every value "
-    "against the executable nearest-binary64 specification.")
+    "against the model's nearest64 bit for bit. Wave 2: C02_decimal_fix_is_correct_rounding, C02_decimal_ndigits, "
+    "C02_decimal_mul_rounds_exact_product, C02_decimal_div_is_correct_rounding (the Decimal model is a correct 28-digit half-even rounding of the "
+    "exact rational result, for ALL operands), C02_nearest64_ok_meaning (for all inputs: no number with a 53-bit mantissa is closer; ties to even) "
+    "and C02_float_is_nearest (every table value's float form is that nearest double).")
 LEVEL_NOTE = (
     "Trusted: Coq kernel + vm_compute; translators harness/translate/codata.py; the hand-written models of Decimal (Common/DecC02.v) and of "
     "__init__/get (Model/Constants.v), tied by correspondence only; CPython decimal/str/OrderedDict/float(Decimal) and pydantic Datum are modelled, "
-    "not verified. 'float is the nearest double' is not a theorem: it is the executable predicate nearest64_ok evaluated on every float the "
-    "implementation returned, plus an integer-only recomputation in the harness. Exact-Decimal equality of an alias with its documented formula "
+    "not verified (but the Decimal model itself is now PROVED to be a correct rounding, and 'float is the nearest double' is a theorem about "
+    "the model's nearest64 on every table value, tied to the implementation's float(Decimal) by exact comparison). Exact-Decimal equality of an alias with its documented formula "
     "depends on the evaluation order chosen for the documented formula (kcalmol2wavenumbers is written 10*4.184/x, not (10/x)*4.184 as the comment "
     "prints it; the two differ in the 28th digit); the order-independent content is C02_alias_power_of_ten_sanity. Finite-table theorems are by "
     "vm_compute + forallb_forall; the case-insensitivity and mangling theorems are by induction over all strings. Non-ASCII names are outside the model.")
